@@ -339,6 +339,24 @@ def record_cli_case(cid, seed, origin='random'):
             return cli_lines(['treeanalysis', src, task], tmp, [], hs)['stdout']
         events.append({'a': 'repeat', 'setlike': 'F', 'what': 'treeanalysis ' + task, 'out1': ana('AB.export'),
                        'out2': ana('AB.export', hs=str(rnd.randint(1, 999)))})
+        if task == 'GapDegree':
+            # statistics of A+B are the sums of those of A and B (A may have the more discontinuous trees: a
+            # statistic must not depend on what was seen before)
+            import re as _re
+
+            def gaps(lines):
+                out, sec = [], None
+                for ln in lines:
+                    if ln.startswith('Per tree'):
+                        sec = 'tree'
+                    elif ln.startswith('Per node'):
+                        sec = 'node'
+                    mm = _re.match(r'Gap degree\s+(\d+):\s+(\d+) ', ln)
+                    if mm and sec:
+                        out.append({'k': '%s %s' % (sec, mm.group(1)), 'n': int(mm.group(2))})
+                return out
+            events.append({'a': 'concat', 'kind': 'sum', 'setlike': 'T', 'what': 'GapDegree statistics',
+                           'a_': gaps(ana('A.export')), 'b_': gaps(ana('B.export')), 'ab': gaps(ana('AB.export'))})
         if task == 'SentenceCount':
             def num(lines):
                 return [{'k': 'sentences', 'n': int(ln.split()[0])} for ln in lines if ln.endswith(' sentences')]
